@@ -520,8 +520,13 @@ func (g *c17Gen) optionRule() (string, map[string]any) {
 			return t.Kind == ast.KindDisjunction || (t.Kind == ast.KindRef && resolvesTo(t, func(r ast.Type) bool { return r.IsStructGeneratedFromDisjunction() }))
 		})
 		m := g.osel(b, o)
-		if g.r.chance(12) {
-			m["argument_index"] = pick(g.r, []int{1, 2, -1})
+		if g.r.chance(25) {
+			// also outside the option's arguments: negative, = len, > len (since /repo 423e7f3: option unchanged)
+			n := 1
+			if o != nil {
+				n = len(o.Args)
+			}
+			m["argument_index"] = pick(g.r, []int{-1, -7, n, n + 1, n + 5, 1, 0})
 		}
 		return pkg, map[string]any{"disjunction_as_options": m}
 	case 9:
